@@ -462,6 +462,67 @@ func checkC02(c *Ctx, r *Report) {
 			}
 		}
 	}
+	// ---- R10: the WebRTC data-channel stream (a multiplexed stream of its own) ----------------------------------
+	// A message carries payload and a control flag (FIN, RESET, ...). The flag takes effect only after the payload
+	// was handed out completely: acting on it earlier turns the state to "all data read" while bytes are pending,
+	// and the next Read answers EOF.
+	{
+		r10 := r.Rule("C02-R10", "E1/E6", 4, "WebRTC stream Read: a message's control flag is processed (and the message dropped) only once its payload is drained; the pending payload advances by exactly the bytes copied, which are the bytes returned")
+		wrP := "p2p/transport/webrtc"
+		rdK := "(*" + wrP + ".stream).Read"
+		if f := r10.need(rdK); f != nil {
+			msgKey := wrP + "/pb.Message.Message"
+			isPayloadLen := func(v ssa.Value) bool {
+				call, ok := v.(*ssa.Call)
+				return ok && calleeKey(call) == "builtin.len" && isLoadOfField(msgKey)(strip2(call.Call.Args[0]))
+			}
+			isZero := func(v ssa.Value) bool { k, ok := constInt(v); return ok && k == 0 }
+			drained := edgeExcl(isPayloadLen, isZero, ordGT)
+			flags := findInstrs(f, callPred("(*"+wrP+".stream).processIncomingFlag"))
+			r10.guard(f, "processIncomingFlag(nextMessage)", flags, "len(nextMessage.Message) == 0", drained, nil)
+			var drops []ssa.Instruction
+			for _, st := range findInstrs(f, fieldWritePred(wrP+".stream.nextMessage")) {
+				if isNilConst(st.(*ssa.Store).Val) {
+					drops = append(drops, st)
+				}
+			}
+			r10.guard(f, "nextMessage = nil", drops, "len(nextMessage.Message) == 0", drained, nil)
+			// the copy out of the pending payload, the advance and the count
+			var copies []ssa.CallInstruction
+			for _, ci := range callsIn(f, "builtin.copy") {
+				if isLoadOfField(msgKey)(strip2(ci.Common().Args[1])) {
+					copies = append(copies, ci)
+				}
+			}
+			if len(copies) != 1 {
+				r10.Fail(rdK+": copy out of the pending payload", f.Pos(), fmt.Sprintf("expected one copy(b, nextMessage.Message), found %d", len(copies)), "")
+			} else {
+				n := copies[0].Value()
+				okAdv := false
+				for _, st := range findInstrs(f, fieldWritePred(msgKey)) {
+					sl, ok := strip2(st.(*ssa.Store).Val).(*ssa.Slice)
+					okAdv = ok && sl.High == nil && sl.Low != nil && strip(sl.Low) == ssa.Value(n) && isLoadOfField(msgKey)(strip2(sl.X))
+				}
+				r10.Check(okAdv, rdK+": the pending payload advances by exactly the bytes copied (Message = Message[n:])", instrPos(copies[0].(ssa.Instruction)), 1, "", "bytes of a message are delivered twice or skipped when the read buffer is smaller than the message", "")
+				// the Read that copied returns (a sum containing) n
+				okRet := true
+				nRets := 0
+				for _, ret := range returnsOf(f) {
+					if w, _ := (&Cut{Fn: f, From: []ssa.Instruction{copies[0].(ssa.Instruction)}, Target: isInstr(ret), StopAtFrom: true}).Run(c); w == "" {
+						continue
+					}
+					if !isNilConst(retVal(ret, 1)) {
+						continue
+					}
+					nRets++
+					if !derivesFrom(retVal(ret, 0), func(v ssa.Value) bool { return v == ssa.Value(n) }) {
+						okRet = false
+					}
+				}
+				r10.Check(okRet && nRets >= 1, rdK+": the count returned after a copy includes the bytes copied", instrPos(copies[0].(ssa.Instruction)), nRets+1, "", "delivered bytes are not reported to the caller", "")
+			}
+		}
+	}
 }
 
 func calleeShort0(k string) string {
